@@ -311,8 +311,9 @@ theorem json_roundtrip {d : Dist} (h : WF d) (hr : Representable d) :
     rw [q]
     have hs := hr.bucket_s
     have hh := hr.bucket_hi
-    rw [toInt64_toUint64 (by omega) (by omega)]
-    rw [toInt64_toUint64 (by omega) (by omega)]
+    have inner : toInt64 (toUint64 (d.bucket / 1000000000)) = d.bucket / 1000000000 :=
+      toInt64_toUint64 (by omega) (by omega)
+    rw [inner, toInt64_toUint64 (by omega) (by omega)]
     omega
   simp only [e1, e2, e3, hne, if_false]
   unfold Bitmask.load?
@@ -323,5 +324,60 @@ theorem json_roundtrip {d : Dist} (h : WF d) (hr : Representable d) :
   have c2 : ¬ (d.mask.bin.length < nbytes d.mask.size) := by rw [h.len_eq]; omega
   simp only [c1, c2, if_false, Option.map_some]
   rw [← h.len_eq, List.take_length]
+
+theorem foldl_add_fields (d : Dist) (ms : List Nat) :
+    (ms.foldl add d).dfrom = d.dfrom ∧ (ms.foldl add d).dto = d.dto ∧ (ms.foldl add d).bucket = d.bucket := by
+  induction ms generalizing d with
+  | nil => exact ⟨rfl, rfl, rfl⟩
+  | cons a ms ih => simp only [List.foldl_cons]; exact ih (add d a)
+
+theorem representable_foldl_add {d : Dist} (h : Representable d) (ms : List Nat) : Representable (ms.foldl add d) := by
+  have f := foldl_add_fields d ms
+  constructor
+  · rw [f.1]; exact h.from_ms
+  · rw [f.2.1]; exact h.to_ms
+  · rw [f.1]; exact h.from_lo
+  · rw [f.1]; exact h.from_hi
+  · rw [f.2.1]; exact h.to_lo
+  · rw [f.2.1]; exact h.to_hi
+  · rw [f.2.2]; exact h.bucket_s
+  · rw [f.2.2]; exact h.bucket_hi
+
+/-- a set bit of `ms.foldl add d` was set in `d` or is the bucket of an added MID (no spurious bits) -/
+theorem bit_foldl_add_inv {d : Dist} (h : WF d) (ms : List Nat) (q : Nat)
+    (hq : Bitmask.bit (ms.foldl add d).mask.bin q = true) :
+    Bitmask.bit d.mask.bin q = true ∨ ∃ m, m ∈ ms ∧ q = (midToIndex d m).toNat := by
+  induction ms generalizing d with
+  | nil => exact Or.inl hq
+  | cons a ms ih =>
+    simp only [List.foldl_cons] at hq
+    rcases ih (wf_add h a) hq with h1 | ⟨m, hm, hqm⟩
+    · rw [bit_add h] at h1
+      simp only [Bool.or_eq_true, decide_eq_true_eq] at h1
+      rcases h1 with h1 | h1
+      · exact Or.inr ⟨a, List.mem_cons_self, h1⟩
+      · exact Or.inl h1
+    · exact Or.inr ⟨m, List.mem_cons_of_mem _ hm, by rw [hqm, midToIndex_add]⟩
+
+/-! ## the int64 reading of MIDs -/
+
+/-- both ends of a MID range lie on the same side of `2^63`, i.e. `MID.Time()` keeps their order -/
+def SameSide (qf qt : Nat) : Prop := qt < 9223372036854775808 ∨ 9223372036854775808 ≤ qf
+
+instance (qf qt : Nat) : Decidable (SameSide qf qt) := by unfold SameSide; infer_instance
+
+theorem toInt64_mono_of_sameSide {a b : Nat} (hab : a ≤ b) (hb : b < 18446744073709551616) (hs : SameSide a b) :
+    toInt64 a ≤ toInt64 b := by
+  unfold SameSide at hs
+  unfold toInt64
+  split <;> split <;> omega
+
+theorem sameSide_left {qf m qt : Nat} (_h1 : qf ≤ m) (h2 : m ≤ qt) (hs : SameSide qf qt) : SameSide qf m := by
+  unfold SameSide at *; omega
+
+theorem sameSide_right {qf m qt : Nat} (h1 : qf ≤ m) (_h2 : m ≤ qt) (hs : SameSide qf qt) : SameSide m qt := by
+  unfold SameSide at *; omega
+
+theorem sameSide_self (m : Nat) : SameSide m m := by unfold SameSide; omega
 
 end SV.Dist
